@@ -77,7 +77,7 @@ class LockHook:
                      attempt number ``k`` (0-based count of failed attempts)
     """
 
-    def __init__(self, dbpath, mode, at=None, k=None, spin_cap=50):
+    def __init__(self, dbpath, mode, at=None, k=None, spin_cap=50, advance=0):
         self.dbpath = dbpath
         self.mode = mode
         self.at = at
@@ -87,6 +87,7 @@ class LockHook:
         self.log = []
         self.other = None
         self.spin_cap = spin_cap
+        self.advance = advance     # virtual seconds a failed attempt takes
         self.enabled = True
         if mode in ('held', 'release'):  # 'none' and 'at' start unlocked
             self.take()
@@ -126,6 +127,12 @@ class LockHook:
             if self.begins > self.spin_cap:
                 raise Injected('library keeps retrying BEGIN (%d attempts)'
                                % self.begins)
+            if self.advance and self.other is not None:
+                try:
+                    return sqlite3.Connection.execute(con, sql, *args)
+                except sqlite3.OperationalError:
+                    ENV.now += self.advance   # the wait took that long
+                    raise
         return sqlite3.Connection.execute(con, sql, *args)
 
     def before(self, kind, info):
